@@ -4,6 +4,7 @@ import (
 	"context"
 	"encoding/binary"
 	"fmt"
+	"io"
 	"sync"
 	"time"
 
@@ -44,6 +45,10 @@ type QuicTransportOpts struct {
 	// Default is defaultDialTimeout.
 	DialTimeout time.Duration
 	Logger      *zerolog.Logger
+
+	// Closer, if not nil, will be closed when the transport is closed.
+	// (e.g. the quic.Transport and the socket that DialContext uses.)
+	Closer io.Closer
 }
 
 func NewQuicTransport(opts QuicTransportOpts) *QuicTransport {
@@ -72,6 +77,9 @@ func (t *QuicTransport) Close() error {
 	t.cancelCtx(ErrClosedTransport)
 	if t.c != nil {
 		t.c.CloseWithError(quic.ApplicationErrorCode(_DOQ_NO_ERROR), "")
+	}
+	if t.opts.Closer != nil {
+		t.opts.Closer.Close()
 	}
 	return nil
 }
